@@ -24,7 +24,7 @@ CONSTANTS Family,     \* "json" | "yaml" | "cli"
 
 StrCats == <<"plain", "empty", "ws-only", "newline", "yaml-bool", "yaml-num", "yaml-date", "doc-marker",
              "ind-first", "ind-inner", "ind-last", "control", "nonbmp", "linesep", "quotes", "html", "long">>
-NumCats == <<"small-int", "neg-zero", "big-exp", "high-prec", "gt-int64", "float-int">>
+NumCats == <<"small-int", "neg-zero", "big-exp", "high-prec", "gt-int64", "float-int", "exp-forms">>
 OtherCats == <<"null", "true", "false">>
 LeafCats == StrCats \o NumCats \o OtherCats
 KeyCats == <<"plain", "empty", "yaml-bool", "yaml-num", "ind-first", "ind-inner", "unicode", "ws">>
